@@ -1296,27 +1296,34 @@ func c48GenStorageReq(rt *rapid.T, env *c48Env, st *vs.S) []byte {
 }
 
 // c48AvoidKnown reshapes a storage request so that it does not hit a behaviour listed
-// in known_findings.json (only then; otherwise requests are left as drawn).
+// in known_findings.json (only then; otherwise requests are left as drawn). Both
+// triggers need a zero/absent origin (with a non-zero origin the server proves and
+// stops after the first account).
 func c48AvoidKnown(req *GetStorageRangesPacket, m *c48Model, st *vs.S) {
+	if len(req.Origin) > 0 && c48ToHash(req.Origin) != (common.Hash{}) {
+		return
+	}
+	hasStorage := func(h common.Hash) bool {
+		a := m.ByHash[h]
+		return a != nil && len(a.Slots) > 0
+	}
 	if vs.Known("TestVerifC48Serve", "storage-empty-set-omitted") {
-		// accounts without storage (or unknown) followed by further accounts: their
-		// (empty) slot set is left out of the reply, shifting the later sets
+		// an account without storage (or unknown) followed, anywhere later, by one with
+		// storage: its empty slot set is left out of the reply, shifting the later sets
+		lastWith := -1
+		for i, h := range req.Accounts {
+			if hasStorage(h) {
+				lastWith = i
+			}
+		}
 		var kept []common.Hash
 		changed := false
 		for i, h := range req.Accounts {
-			a := m.ByHash[h]
-			if (a == nil || len(a.Slots) == 0) && i != len(req.Accounts)-1 {
+			if i < lastWith && !hasStorage(h) {
 				changed = true
 				continue
 			}
 			kept = append(kept, h)
-		}
-		// the last one may be empty only if it is alone (then the reply is empty)
-		if n := len(kept); n > 1 {
-			if a := m.ByHash[kept[n-1]]; a == nil || len(a.Slots) == 0 {
-				kept = kept[:n-1]
-				changed = true
-			}
 		}
 		if changed {
 			req.Accounts = kept
@@ -1325,13 +1332,17 @@ func c48AvoidKnown(req *GetStorageRangesPacket, m *c48Model, st *vs.S) {
 			}
 		}
 	}
-	if vs.Known("TestVerifC48Serve", "storage-limit-without-proof") {
-		// origin == 0 with a limit below the account's last slot: the reply stops at the
-		// limit but carries no proof
-		if len(req.Limit) > 0 && (len(req.Origin) == 0 || c48ToHash(req.Origin) == (common.Hash{})) {
-			req.Limit = nil
-			if st != nil {
-				st.Excluded()
+	if vs.Known("TestVerifC48Serve", "storage-limit-without-proof") && len(req.Limit) > 0 && len(req.Accounts) > 0 {
+		// the first account has slots after the one that closes the range at the limit:
+		// the reply stops there but carries no proof
+		if a := m.ByHash[req.Accounts[0]]; a != nil {
+			limit := c48ToHash(req.Limit)
+			k := sort.Search(len(a.Slots), func(i int) bool { return bytes.Compare(a.Slots[i].Hash[:], limit[:]) >= 0 })
+			if k < len(a.Slots)-1 {
+				req.Limit = nil
+				if st != nil {
+					st.Excluded()
+				}
 			}
 		}
 	}
